@@ -6,6 +6,7 @@ import GeonumModel.Lemmas.Shift
 import GeonumModel.Lemmas.Exact
 import GeonumModel.Lemmas.ExactAdd
 import GeonumModel.Lemmas.FloatReflect
+import GeonumModel.Lemmas.FloatMetric
 
 set_option linter.unusedSectionVars false
 set_option linter.unusedVariables false
@@ -216,6 +217,19 @@ theorem reflect_twice_float {g axis : Geonum F} (hg : g.angle.Inv) (hax : axis.a
     ∃ (δ : ℝ) (m : ℤ), |δ| < 6 * (val (e10 : F) + 1 / 10 ^ 15) ∧
       Angle.Tq ((g.reflect axis).reflect axis).angle = Angle.Tq g.angle + δ + (m : ℝ) * (4 * val (qp : F)) :=
   Geonum.reflect_twice_float hg hax
+
+/-- (S/B) **`scale_rotate` in rounded arithmetic**: the magnitude is the one rounded product of `|g|` with `|f|` (negative factor) resp. `f`,
+    and the angle's float total is `T g + T r`, plus exactly a half turn when the factor tests negative — i.e. the Cartesian vector is multiplied
+    by the signed factor and rotated — up to one snap and one rounding, for every blade history -/
+theorem scaleRotate_float {g : Geonum F} {f : F} {r : Angle F} (hg : g.angle.Inv) (hr : r.Inv) (hm : Fin g.mag) (hf : Fin f) :
+    (flt f zero = true →
+      (g.scaleRotate f r).mag = fmul g.mag (fabs f) ∧
+      ∃ δ : ℝ, |δ| < val (e10 : F) + 1 / 10 ^ 15 ∧
+        Angle.Tq (g.scaleRotate f r).angle = Angle.Tq g.angle + 2 * val (qp : F) + Angle.Tq r + δ) ∧
+    (flt f zero = false →
+      (g.scaleRotate f r).mag = fmul g.mag f ∧
+      ∃ δ : ℝ, |δ| < val (e10 : F) + 1 / 10 ^ 15 ∧ Angle.Tq (g.scaleRotate f r).angle = Angle.Tq g.angle + Angle.Tq r + δ) :=
+  Geonum.scaleRotate_float hg hr hm hf
 
 end B
 
